@@ -175,6 +175,10 @@ def run(ctx, eng):
         for p in paths:
             if p.exit in ('return', 'fall'):
                 v = p.value
+                if v is None or v == T.NONE:
+                    # nothing is returned for emission (the dispatcher
+                    # unpacks a pair: such a path cannot continue there)
+                    continue
                 frames = v[1][0] if (v and v[0] == 'tuple' and v[1]) \
                     else None
                 el = cm.list_elems(p, frames) if frames is not None else None
